@@ -13,7 +13,14 @@ bytes, or the same error family.  Sources of programs:
   (c) Table D sequences of the bundled tables of versions >= 19 with forced delayed-replication factors
       (all assignments in 0..3 when there are at most three un-nested ones, random otherwise),
   (d) corpus files (decode; re-encode from the flat JSON),
-  (e) cache sizes {0, 1, 2, 50} with random message orders over >= 5 templates and >= 2 table versions.
+  (e) cache sizes {0, 1, 2, 50}: request histories over FAMILIES of near-identical templates (same top-level member
+      ids but another replication body / factor / nested body / operator inside the span, fixed vs delayed replication
+      of one body, same ids under two table versions, prefixes, permutations, same set of ids with other
+      multiplicities, a sequence vs its expansion, operators that differ in the operand), two data variants per
+      template (other values and counts, compressed or not), orders that stay inside a family most of the time (a
+      cache of one entry mixes up neighbours only); every compiled result is compared with the uncompiled one of the
+      same message, decode and encode; a failing history is shrunk to two requests.
+The cases are evaluated in chunks on up to 16 processes (one model driver each), merged in a fixed order.
 CORRESPONDENCE (model vs implementation): the compiled statement list (`to_dict()` vs the model's `dump`),
 the model's `exec` of the compiled program (and of the dumped + re-loaded program) vs the implementation's
 compiled decode / encode, the cache key list after every request vs the model's `getOrCompile`.
@@ -46,8 +53,9 @@ META = dict(
          '(201/202/203/204/207/208 in force, QA links) and one bitmap-definition step (PARTIAL: the composition over whole '
          'ScopeClosed templates and load(dump c) = c are stated, not proved). The whole-template property is covered by the '
          'oracle compiled-vs-uncompiled and reloaded-vs-original on the implementation (generated templates of every operator, '
-         'Table D rows of versions >= 19 with forced replication factors, corpus, cache limits 0/1/2/50 with random message '
-         'orders, decode and encode) and by model-vs-implementation correspondence of statement lists (to_dict vs dump), exec '
+         'Table D rows of versions >= 19 with forced replication factors, corpus, cache limits 0/1/2/50 with request '
+         'histories over families of near-identical templates (same top-level ids / flattened ids / prefix / set of ids, other '
+         'replication body, factor, table version, order), decode and encode) and by model-vs-implementation correspondence of statement lists (to_dict vs dump), exec '
          'results (also after dump/load) and cache contents.',
     technique='Lean 4 theorems (frame law of the primitives, local simulation steps, induction over request histories) + metamorphic oracle on the implementation + checked model/implementation correspondence',
     note='The model mirrors templatecompiler.py after the fixes F5, F6, F7, F7b, F7c; a zero-length bitmap defined by a delayed replication is the open finding F7d. '
